@@ -2,6 +2,7 @@ package ecs
 
 import (
 	"fmt"
+	"math"
 	"unsafe"
 )
 
@@ -165,9 +166,14 @@ func (q *Query) Step(step int) bool {
 	if step <= 0 {
 		panic("step size must be positive")
 	}
+	if step > math.MaxInt32 {
+		// A query never holds more than MaxInt32 entities.
+		// Clamp to avoid truncation and overflow in the index arithmetic.
+		step = math.MaxInt32
+	}
 	var ok bool
 	for {
-		step, ok = q.stepArchetype(uint32(step))
+		step, ok = q.stepArchetype(step)
 		if ok {
 			return true
 		}
@@ -352,12 +358,13 @@ func (q *Query) setArchetype(arches archetypes, access *archetypeAccess, arch *a
 	q.entityIndexMax = maxIndex
 }
 
-func (q *Query) stepArchetype(step uint32) (int, bool) {
-	q.entityIndex += step
-	if q.entityIndex <= q.entityIndexMax {
+func (q *Query) stepArchetype(step int) (int, bool) {
+	index := int(q.entityIndex) + step
+	if index <= int(q.entityIndexMax) {
+		q.entityIndex = uint32(index)
 		return 0, true
 	}
-	return int(q.entityIndex) - int(q.entityIndexMax) - 1, false
+	return index - int(q.entityIndexMax) - 1, false
 }
 
 func (q *Query) countEntities() int {
@@ -417,6 +424,9 @@ func (q *Query) countEntities() int {
 func (q *Query) entityAt(index int) Entity {
 	if index < 0 {
 		panic("can't get entity at negative index")
+	}
+	if index > math.MaxUint32 {
+		panic(fmt.Sprintf("query index out of range: index %d", index))
 	}
 	var count uint32 = 0
 	idx := uint32(index)
